@@ -147,6 +147,11 @@ func (h *Handler) Handle(req, resp dhcpv6.DHCPv6) (dhcpv6.DHCPv6, bool) {
 				// Prefix: it is a hint that specifies nothing
 				hint.Prefix = &net.IPNet{}
 			}
+			if hint.Prefix.IP == nil {
+				// No address in the hint is the same as the unspecified address:
+				// the client takes whatever it already has, or anything new
+				hint.Prefix.IP = net.IPv6zero
+			}
 		}
 
 		// Bitmap to track which requests are already satisfied or not
